@@ -161,7 +161,7 @@ def run_property(prop, tier):
       'property_id': prop, 'tier': tier, 'seed': seed, 'level': 'proof',
       'coverage': {
         'obligations': max(nthm, 1) if nthm else 0, 'discharged': ndis,
-        'checker_cmd': 'cd /verif/lean && lake build Clemens.Props.%s' % prop + (' && lake env leanchecker Clemens.Props.%s && #print axioms audit' % prop if tier == 'thorough' else ''),
+        'checker_cmd': 'cd /verif/lean && lake build ' + ' '.join(obl.get('modules', [])) + (' && lake env leanchecker <module> && #print axioms audit' if tier == 'thorough' else ''),
         'trusted_base': TRUSTED_BASE,
         'theorems': obl.get('theorems', []),
         'axioms': obl.get('axioms', {}),
